@@ -220,4 +220,138 @@ def progRsh (zeroCarry zeroSpare : Bool) (nOut gap work : Nat) (zero : Val) (fir
       if zeroSpare then .write 1 zero body else body
   carryPhase zeroCarry zero firstCO midCO gapPhase nOut
 
+/-! ### the poulpy-ckks product path (poulpy-ckks/src/leveled/default/mul.rs, delegates/composite.rs)
+
+The evaluator's products take a buffer from the scratch, have one operation fill it while using the rest of the scratch,
+and have a second operation consume it while using the same rest again.  `Prog.shift` places a sub-operation's program on
+the rest (its cells renumbered after the buffers taken before it). -/
+
+/-- the same program on cells moved up by `k` (the operation runs on what is left after `k` buffers were taken) -/
+def Prog.shift (k : Nat) : Prog Val α → Prog Val α
+  | .ret a => .ret a
+  | .read c f => .read (c + k) (fun v => (f v).shift k)
+  | .write c v p => .write (c + k) v (p.shift k)
+
+/-- `let (tmp, rest) = scratch.take(..); producer(&mut tmp, .., rest); consumer(dst, &tmp, .., rest)`: cell 0 = `tmp`.
+* `ckks_mul_into / _assign`, `ckks_square_into / _assign`: `tmp` = the tensor (`take_glwe_tensor`), producer =
+  `glwe_tensor_apply` / `glwe_tensor_square_apply` (`progCnvProduct`), consumer = `glwe_tensor_relinearize` (`progKeyswitch`);
+* `ckks_mul_add_*`, `ckks_mul_sub_*`: `tmp` = `take_mul_tmp(dst)`, producer = the product into `tmp`, consumer =
+  `ckks_add_assign` / `ckks_sub_assign(dst, tmp)` (a `glwe_lsh_add` / `glwe_lsh_sub` and a normalisation: `progLsh`);
+* `ckks_mul_pt_const_znx_*` with a real and an imaginary part: `tmp` = `take_glwe(dst)`, producer = `glwe_mul_const` and
+  `glwe_rotate_assign`, consumer = `glwe_add_assign` (no scratch);
+* `ckks_*_pt_vec_rnx_*`: `tmp` = the converted plaintext (`take_glwe_plaintext`), producer = `to_znx` (no scratch), consumer =
+  the `_znx` operation.
+`pack` = the buffer's content as a function of what the producer computed. -/
+def progViaTmp (producer : Prog Val β) (pack : β → Val) (consumer : Val → Prog Val α) : Prog Val α :=
+  (producer.shift 1).bind (fun r => .write 0 (pack r) (.read 0 (fun t => (consumer t).shift 1)))
+
+/-- `m` buffers (cells `m − 1 … 0`) each written with the result of a sub-operation that runs on the rest (`K` cells further):
+the rescaled copies of `ckks_dot_product_ct` (`ckks_rescale_into(&mut buf[i], shift, x[i], rest)`), the two halves of a
+`mul_many_rec` level -/
+def fillBufs (K : Nat) (fill : Nat → Prog Val Val) (k : Prog Val α) : Nat → Prog Val α
+  | 0 => k
+  | i + 1 => ((fill i).shift K).bind (fun v => .write i v (fillBufs K fill k i))
+
+/-- terms `1 … cnt − 1` of the fast path of `ckks_dot_product_ct`: `glwe_tensor_apply_add_assign(acc, a_buf[i], b_buf[i], rest)` reads
+the two copies (cells `i`, `cnt + i`) and the accumulator (cell `T`) and writes the accumulator -/
+def accumulateTerms (K T cnt : Nat) (accum : Nat → Val → Val → Val → Prog Val Val) (k : Prog Val α) : Nat → Prog Val α
+  | 0 => k
+  | j + 1 =>
+    let i := cnt - (j + 1)
+    .read i (fun a => .read (cnt + i) (fun b => .read T (fun t =>
+      ((accum i a b t).shift K).bind (fun t' => .write T t' (accumulateTerms K T cnt accum k j)))))
+
+/-- `ckks_dot_product_ct`, fast path with neither side aligned: cells `0 … cnt − 1` = the rescaled copies of `a`, `cnt … 2·cnt − 1` those
+of `b`, cell `2·cnt` = the tensor accumulator, the rest = scratch of the rescales, the tensor products and the relinearisation -/
+def progCkksDotProductCt (cnt : Nat) (rescale : Nat → Prog Val Val) (first : Val → Val → Prog Val Val)
+    (accum : Nat → Val → Val → Val → Prog Val Val) (relin : Val → Prog Val α) : Prog Val α :=
+  let T := 2 * cnt
+  let K := 2 * cnt + 1
+  fillBufs K rescale
+    (.read 0 (fun a0 => .read cnt (fun b0 => ((first a0 b0).shift K).bind (fun t => .write T t
+      (accumulateTerms K T cnt accum (.read T (fun t' => (relin t').shift K)) (cnt - 1))))))
+    (2 * cnt)
+
+/-- one level of `mul_many_rec`: the products of the two halves go to two buffers taken from the scratch (cells 0, 1; each half
+computed on the rest), then their product goes to the destination on the rest -/
+def progMulManyLevel (left right : Prog Val Val) (product : Val → Val → Prog Val α) : Prog Val α :=
+  (left.shift 2).bind (fun l => .write 0 l ((right.shift 2).bind (fun r => .write 1 r
+    (.read 0 (fun x => .read 1 (fun y => (product x y).shift 2))))))
+
+/-- the kernels of one `glwe_tensor_apply` / `glwe_tensor_square_apply` / `glwe_mul_plain` call with its real operands folded in
+(the parameters of `progCnvProduct`) -/
+structure ProductKernels (Val : Type) where
+  cols : Nat
+  tmpA : Val
+  tmpB : Val
+  prepL : Val → Val
+  prepR : Val → Val
+  cnvTmp : Val → Val → Val
+  cnv : Nat → Val → Val → Val → Val
+  normFirst : Val → Val × Val
+  normRest : Val → Val → Val
+  /-- the buffer's content from the columns computed -/
+  pack : List Val → Val
+
+def ProductKernels.prog (P : ProductKernels Val) : Prog Val Val :=
+  (progCnvProduct P.cols P.tmpA P.tmpB P.prepL P.prepR P.cnvTmp P.cnv P.normFirst P.normRest).bind (fun cs => .ret (P.pack cs))
+
+/-- the kernels of `glwe_tensor_relinearize` (a key-switch of the tensor's last columns: the parameters of `progKeyswitch`,
+`aDft` = the DFT of the tensor read from its buffer) -/
+structure RelinKernels (Val : Type) where
+  cols : Nat
+  zero : Val
+  aDft : Val → Val
+  vmpTmp : Val → Val
+  vmp : Val → Val → Val
+  addSmall : Val → Val
+  normFirst : Nat → Val → Val × Val
+  normRest : Val → Val → Val
+
+def RelinKernels.prog (R : RelinKernels Val) (tensor : Val) : Prog Val (List Val) :=
+  progKeyswitch R.cols R.zero (R.aDft tensor) R.vmpTmp R.vmp R.addSmall R.normFirst R.normRest
+
+/-- the kernels of a `glwe_lsh` / `glwe_lsh_add` / `glwe_lsh_sub` of an operand `x` into a destination (the parameters of
+`progLsh`, with the library's unconditional zero fill of the carry) -/
+structure ShiftKernels (Val : Type) where
+  nOut : Nat
+  minSize : Nat
+  zero : Val
+  firstCO : Val → Nat → Val
+  midCO : Val → Nat → Val → Val
+  step : Val → Nat → Val → Val × Val
+
+def ShiftKernels.prog (S : ShiftKernels Val) (x : Val) : Prog Val (List Val) :=
+  progLsh true S.nOut S.minSize S.zero (S.firstCO x) (S.midCO x) (S.step x)
+
+/-- `ckks_mul_into / _assign`, `ckks_square_into / _assign`: the tensor (cell 0, `take_glwe_tensor`) is written by the tensor
+product and read by the relinearisation; both use the rest of the scratch -/
+def progCkksMul (P : ProductKernels Val) (R : RelinKernels Val) : Prog Val (List Val) :=
+  progViaTmp P.prog id R.prog
+
+/-- `ckks_mul_add_ct_into` / `ckks_mul_sub_ct_into`: `take_mul_tmp(dst)` (cell 0) receives the product (`ckks_mul_into(tmp, a, b)`
+on the rest), `ckks_add_assign / ckks_sub_assign(dst, tmp)` shifts it into the destination through the carry on the rest -/
+def progCkksMulAddCt (P : ProductKernels Val) (R : RelinKernels Val) (packCt : List Val → Val) (S : ShiftKernels Val) :
+    Prog Val (List Val) :=
+  progViaTmp (progCkksMul P R) packCt S.prog
+
+/-- `ckks_mul_add_pt_vec_znx_into`, `ckks_mul_sub_pt_vec_znx_into` and one term of `ckks_dot_product_pt_*` (`accumulate_unnormalized`):
+the product is a `glwe_mul_plain` / `glwe_mul_const` into `take_mul_tmp(dst)` -/
+def progCkksMulAddPt (P : ProductKernels Val) (S : ShiftKernels Val) : Prog Val (List Val) :=
+  progViaTmp P.prog id S.prog
+
+/-- `ckks_dot_product_ct`, fast path: rescaled copies (each a shift of an input into its buffer), the first tensor product into
+the accumulator, `cnt − 1` accumulating products, the relinearisation -/
+def progCkksDotProduct (cnt : Nat) (S : ShiftKernels Val) (input : Nat → Val) (packCt : List Val → Val)
+    (first : Val → Val → ProductKernels Val) (accum : Nat → Val → Val → Val → ProductKernels Val) (R : RelinKernels Val) :
+    Prog Val (List Val) :=
+  progCkksDotProductCt cnt (fun i => (S.prog (input i)).bind (fun ls => .ret (packCt ls)))
+    (fun a b => (first a b).prog) (fun i a b t => (accum i a b t).prog) R.prog
+
+/-- `ckks_mul_many` on four inputs: two products into the two halves' buffers, then their product -/
+def progCkksMulMany4 (PL PR : ProductKernels Val) (RL RR : RelinKernels Val) (packCt : List Val → Val)
+    (P : Val → Val → ProductKernels Val) (R : RelinKernels Val) : Prog Val (List Val) :=
+  progMulManyLevel ((progCkksMul PL RL).bind (fun ls => .ret (packCt ls))) ((progCkksMul PR RR).bind (fun ls => .ret (packCt ls)))
+    (fun x y => progCkksMul (P x y) R)
+
 end ScratchProg
